@@ -371,19 +371,28 @@ def check_C05(ctx):
             continue
         seen.add(sig)
         # reproduce alone
-        o = ctx.run_harness(["fuzz", "-only", payload["b64"], "-out", os.path.join(ctx.sub("fr%d" % len(seen)), "r")], check=False, timeout=200)
+        o = ctx.run_harness(["fuzz", "-only", b64arg(ctx, payload["b64"]), "-out", os.path.join(ctx.sub("fr%d" % len(seen)), "r")], check=False, timeout=200)
         ctx.violation(sig, "assembling %r (configuration #%d): %s" % (__import__("base64").b64decode(payload["b64"])[:200], e.get("cfg", 0), json.dumps({k: v for k, v in e.items() if k not in ("b64", "text")})), payload)
     for c in crashes[:3]:
         # reproduce alone before believing it
         # (up to 8 attempts: whether a defect shows may depend on Go's randomised map iteration order)
         for attempt in range(1, 9):
-            o = ctx.run_harness(["fuzz", "-only", c["b64"], "-out", os.path.join(ctx.sub("cr%d_%d" % (c["id"], attempt)), "r")], check=False, timeout=300)
+            o = ctx.run_harness(["fuzz", "-only", b64arg(ctx, c["b64"]), "-out", os.path.join(ctx.sub("cr%d_%d" % (c["id"], attempt)), "r")], check=False, timeout=300)
             if o.returncode != 0:
                 break
         else:
             raise ToolError("a hung/crashed case did not reproduce in 8 attempts when run alone: %r" % c)
         ctx.violation("C05 did-not-return-or-crashed", "assembling %r did not return within the deadline or crashed the process (exit %d; reproduced alone at attempt %d): %s" % (
             __import__("base64").b64decode(c["b64"])[:200], c["exit"], attempt, c["stderr"][-300:]), dict(kind="fuzz", b64=c["b64"], cfg=c["cfg"]))
+
+
+def b64arg(ctx, b64):
+    """the base64 input as a command-line argument, or @file when it is too long for one"""
+    if len(b64) < 60000:
+        return b64
+    path = os.path.join(ctx.sub("b64"), "in%d.b64" % (abs(hash(b64)) % 10**9))
+    open(path, "w").write(b64)
+    return "@" + path
 
 
 def replay_fuzz(ctx, payload):
@@ -393,7 +402,7 @@ def replay_fuzz(ctx, payload):
     for attempt in range(8):      # a defect that depends on map iteration order or scheduling may need several attempts
         dd = os.path.join(d, "a%d" % attempt)
         os.makedirs(dd, exist_ok=True)
-        p = ctx.run_harness(["fuzz", "-only", payload["b64"], "-out", os.path.join(dd, "r")], check=False, timeout=300)
+        p = ctx.run_harness(["fuzz", "-only", b64arg(ctx, payload["b64"]), "-out", os.path.join(dd, "r")], check=False, timeout=300)
         f = os.path.join(dd, "r.000.ndjson")
         if p.returncode != 0:
             ctx.violation(payload["signature"], payload["what"], dict(kind="fuzz", b64=payload["b64"], cfg=payload.get("cfg", 0)))
